@@ -563,7 +563,7 @@ def _replay(mod, path):
         outs = run_driver([l for l, _ in ls])
         for (l, e), o in zip(ls, outs):
             print("model:", o[:1500])
-            print("impl :", e[:1500])
+            print("impl :", (e if isinstance(e, str) else ("<predicate>" if callable(e) else canon(e)))[:1500], "" if same_output(o, e) else "   <-- differs")
     for k, m in fs:
         print(f"oracle: VIOLATED [{k}] {m}")
     if not fs:
